@@ -77,6 +77,47 @@ func (n wNodeV) Validate() error {
 	return nil
 }
 
+// ---- embedded (anonymous) fields: exported type names, so the anonymous field is exported ----
+type WEmbV struct { // embedded by value; value-receiver Validate (promoted to a parent without its own)
+	EErr string `mapstructure:"eerr"`
+}
+
+func (e WEmbV) Validate() error {
+	if e.EErr != "" {
+		return errors.New(e.EErr)
+	}
+	return nil
+}
+
+type WEmbP struct { // embedded through a pointer; pointer-receiver Validate
+	PErr string `mapstructure:"perr"`
+	Deep wLeafV `mapstructure:"deep"`
+}
+
+func (e *WEmbP) Validate() error {
+	if e.PErr != "" {
+		return errors.New(e.PErr)
+	}
+	return nil
+}
+
+type WEmbLeaf int // embedded non-struct type with a validator
+
+func (l WEmbLeaf) Validate() error {
+	if l < 0 {
+		return fmt.Errorf("embleaf%d", -int(l))
+	}
+	return nil
+}
+
+// wPromo has no Validate of its own: WEmbV.Validate is PROMOTED, so callValidateIfPossible on the
+// parent runs the embedded validator (reported at the parent's path) and the walk then reports it
+// once more at the embedded field's own path.
+type wPromo struct {
+	WEmbV `mapstructure:",squash"`
+	X     wLeafV `mapstructure:"x"`
+}
+
 type wPlain struct { // struct without Validate
 	A wLeafV `mapstructure:"a"`
 	b wLeafV //nolint:unused
@@ -101,6 +142,12 @@ type wNode struct { // struct with pointer-receiver Validate
 	PL     *wLeafV `mapstructure:"pl"`
 	Plain  wPlain  `mapstructure:"plain,omitempty"`
 	F      float64 `mapstructure:"f"`
+	// anonymous fields: the node's own Validate shadows the promoted ones; each embedded value is
+	// still a field of its own and must be walked
+	WEmbV    `mapstructure:",squash"` // squash tag: empty name => path segment "wembv"
+	*WEmbP   `mapstructure:"embp"`    // embedded pointer with a named tag
+	WEmbLeaf                          // no tag at all => "wembleaf"
+	Promo    wPromo `mapstructure:"promo"`
 }
 
 func (n *wNode) Validate() error {
@@ -471,6 +518,66 @@ func (g *wGen) node(live bool, path []string, depth int) (*wNode, string) {
 		fs = append(fs, wField(true, "plain", t))
 	}
 	fs = append(fs, wField(true, "f", "VLeaf None"))
+	// embedded WEmbV (by value, squash tag)
+	{
+		em := ""
+		if g.bad() {
+			em = g.msg()
+			n.WEmbV.EErr = em
+			g.expect(live, sub(path, "wembv"), em)
+			g.reached["embedded.value.fail"]++
+		}
+		fs = append(fs, wField(true, "wembv", "VStruct "+wOpt(em)+" ["+wField(true, "eerr", "VLeaf None")+"]"))
+	}
+	// embedded *WEmbP (pointer, may be nil)
+	{
+		t := "VPtr VInvalid"
+		if g.r.Intn(2) == 0 {
+			e := &WEmbP{}
+			em := ""
+			if g.bad() {
+				em = g.msg()
+				e.PErr = em
+				g.expect(live, sub(path, "embp"), em)
+				g.reached["embedded.ptr.fail"]++
+			}
+			var td string
+			e.Deep, td = g.leafV(live, sub(sub(path, "embp"), "deep"))
+			n.WEmbP = e
+			t = "VPtr (VStruct " + wOpt(em) + " [" + wField(true, "perr", "VLeaf None") + "; " + wField(true, "deep", td) + "])"
+			g.reached["embedded.ptr.set"]++
+		}
+		fs = append(fs, wField(true, "embp", t))
+	}
+	// embedded WEmbLeaf (non-struct)
+	{
+		t := "VLeaf None"
+		if g.bad() {
+			k := 1 + g.r.Intn(50)
+			m2 := "embleaf" + strconv.Itoa(k)
+			n.WEmbLeaf = WEmbLeaf(-k)
+			g.expect(live, sub(path, "wembleaf"), m2)
+			t = "VLeaf " + wOpt(m2)
+			g.reached["embedded.leaf.fail"]++
+		}
+		fs = append(fs, wField(true, "wembleaf", t))
+	}
+	// promo: parent without its own Validate, the embedded one is promoted
+	{
+		pp := sub(path, "promo")
+		em := ""
+		if g.bad() {
+			em = g.msg()
+			n.Promo.WEmbV.EErr = em
+			g.expect(live, pp, em)               // promoted method, called on the parent
+			g.expect(live, sub(pp, "wembv"), em) // and on the embedded field itself
+			g.reached["embedded.promoted.fail"]++
+		}
+		var tx string
+		n.Promo.X, tx = g.leafV(live, sub(pp, "x"))
+		fs = append(fs, wField(true, "promo", "VStruct "+wOpt(em)+" ["+
+			wField(true, "wembv", "VStruct "+wOpt(em)+" ["+wField(true, "eerr", "VLeaf None")+"]")+"; "+wField(true, "x", tx)+"]"))
+	}
 	return n, "VStruct " + wOpt(m) + " " + vList(fs)
 }
 
